@@ -1067,8 +1067,9 @@ func (c *compiler) createFunctionBindings(funcs []*ast.FunctionDeclaration) {
 			for _, decl := range funcs {
 				if !decl.Function.Async && !decl.Function.Generator {
 					b, created := s.bindNameLexical(decl.Function.Name.Name, false, int(decl.Function.Name.Idx1())-1)
-					if created && (s.isFunction() || s.variable && s.outer.eval) {
-						// a top-level function of a function body or of the variable scope of strict eval code is
+					if created && (s.isFunction() || s.variable && (s.outer.eval || s.outer.isFunction())) {
+						// a top-level function of a function body (also of the separate variable scope of a function
+						// with a non-simple parameter list) or of the variable scope of strict eval code is
 						// var-scoped: a var declaration of the same name (also one made by direct eval code at run
 						// time) is not a conflict
 						b.isVar = true
